@@ -3324,11 +3324,14 @@ func (c *Checker) replaceTypeParametersInMethodCopy(method *types.Method, typeAr
 	var overloadsCopy []*types.Method
 
 	if different {
+		// the overloads are shared with the original method, substitute in copies
+		newOverloads := make([]*types.Method, len(method.Overloads))
 		for i, overload := range method.Overloads {
-			method.Overloads[i] = c.replaceTypeParametersInMethod(overload, typeArgs, replaceMethodTypeParams)
+			newOverloads[i] = c.replaceTypeParametersInMethod(c.deepCopyMethod(overload), typeArgs, replaceMethodTypeParams)
 		}
+		methodCopy.Overloads = newOverloads
 	} else {
-		overloadsCopy := make([]*types.Method, len(method.Overloads))
+		overloadsCopy = make([]*types.Method, len(method.Overloads))
 		for i, overload := range method.Overloads {
 			overloadCopy := c.replaceTypeParametersInMethodCopy(overload, typeArgs, replaceMethodTypeParams)
 			if overload != overloadCopy {
